@@ -801,6 +801,9 @@ func genList(seed uint64) []rtcp.Packet {
 	out := make([]rtcp.Packet, 0, n)
 	for i := 0; i < n; i++ {
 		k := r.intn(numKinds)
+		if i == 0 && r.chance(4) {
+			k = kRaw // unknown packet types travel first in a datagram as often as anywhere else
+		}
 		sz := r.sizeClass()
 		if sz == szLarge {
 			sz = szTypical
